@@ -357,6 +357,35 @@ func (im *Impl) exec(op J, res *ExecResult) string {
 			names = append(names, in.Field)
 		}
 		return result(err, hexNames(names))
+	case "export":
+		path := filepath.Join(im.root, fmt.Sprintf("export-%d-%s.json", im.n, op["file"].(string)))
+		err := db.ExportCollection(coll, path)
+		if err != nil {
+			return result(err, "")
+		}
+		im.files[op["file"].(string)] = path
+		docs, perr := parseExportFile(path)
+		if perr != nil {
+			return "ok export-unparsable " + perr.Error()
+		}
+		parts := []string{}
+		for _, m := range docs {
+			parts = append(parts, canonDoc(m))
+		}
+		return "ok docs " + strings.Join(parts, ";")
+	case "import":
+		path := ""
+		if f, ok := op["file"]; ok && f != nil {
+			path = im.files[f.(string)]
+		}
+		if raw, ok := op["raw"]; ok && raw != nil {
+			path = filepath.Join(im.root, fmt.Sprintf("import-%d.json", im.n))
+			os.WriteFile(path, []byte(raw.(string)), 0o644)
+		}
+		if path == "" {
+			path = filepath.Join(im.root, "does-not-exist.json")
+		}
+		return result(db.ImportCollection(coll, path), "ok unit")
 	case "createCollectionByQuery":
 		q := decQuery(op["q"])
 		return result(db.CreateCollectionByQuery(coll, q), "ok unit")
@@ -459,4 +488,28 @@ func (im *Impl) Logical() string {
 		parts = append(parts, hx(n)+"|"+strings.Join(fs, ",")+"|"+fmt.Sprint(cnt)+"|"+strings.Join(ds, ";"))
 	}
 	return "logical " + strings.Join(parts, "#")
+}
+
+// parseExportFile reads an exported file the way any JSON consumer would (independently of clover).
+func parseExportFile(path string) ([]map[string]interface{}, error) {
+	b, err := os.ReadFile(path)
+	if err != nil {
+		return nil, err
+	}
+	return parseExport(b)
+}
+
+func parseExport(b []byte) ([]map[string]interface{}, error) {
+	var arr []*map[string]interface{}
+	if err := json.Unmarshal(b, &arr); err != nil {
+		return nil, err
+	}
+	out := []map[string]interface{}{}
+	for _, m := range arr {
+		if m == nil {
+			return nil, fmt.Errorf("null element")
+		}
+		out = append(out, *m)
+	}
+	return out, nil
 }
